@@ -652,6 +652,48 @@ func main() {
 			w.Tally("carriers")
 		})
 	}
+	// Inject into a carrier that ALREADY holds traceparent / tracestate (a hop that extracts and re-injects into the
+	// same header map, a retried request): the new values must replace the old ones for every carrier type, so that a
+	// following Extract yields the injected span context, not the stale one.
+	nRe := o.Count(200, 4000)
+	for i := 0; i < nRe; i++ {
+		var tid trace.TraceID
+		var sid trace.SpanID
+		for j := range tid {
+			tid[j] = byte(r.Intn(255) + 1)
+		}
+		for j := range sid {
+			sid[j] = byte(r.Intn(255) + 1)
+		}
+		tsStr := strings.Join(validList(r, vgen.Pick(r, []int{0, 1, 3})), ",")
+		ts, _ := trace.ParseTraceState(tsStr)
+		sc := trace.NewSpanContext(trace.SpanContextConfig{TraceID: tid, SpanID: sid, TraceFlags: trace.TraceFlags(r.Intn(2)), TraceState: ts})
+		oldTP := "00-0af7651916cd43dd8448eb211c80319c-b7ad6b7169203331-0" + vgen.Pick(r, []string{"0", "1"})
+		oldTS := vgen.Pick(r, []string{"", "stale=1", "stale=1,other=2"})
+		desc := map[string]any{"op": "reinject", "old_traceparent": oldTP, "old_tracestate": oldTS, "new": sc.TraceID().String() + "-" + sc.SpanID().String(), "new_tracestate": tsStr}
+		guard(desc, func() {
+			ctx := trace.ContextWithSpanContext(context.Background(), sc)
+			for name, mk := range map[string]func() propagation.TextMapCarrier{
+				"MapCarrier":    func() propagation.TextMapCarrier { return propagation.MapCarrier{} },
+				"HeaderCarrier": func() propagation.TextMapCarrier { return propagation.HeaderCarrier(http.Header{}) },
+			} {
+				c := mk()
+				c.Set("traceparent", oldTP)
+				if oldTS != "" {
+					c.Set("tracestate", oldTS)
+				}
+				prop.Inject(ctx, c)
+				got := trace.SpanContextFromContext(prop.Extract(context.Background(), c))
+				if got.TraceID() != tid || got.SpanID() != sid || got.IsSampled() != sc.IsSampled() {
+					w.Violation(name+": Extract after Inject into a carrier that already held a traceparent returns the stale span context", desc)
+				} else if ts.Len() > 0 && got.TraceState().String() != ts.String() {
+					w.Violation(name+": Extract after Inject into a carrier that already held a tracestate returns the stale tracestate", desc)
+				}
+			}
+			w.Tally("reinject")
+		})
+	}
+
 	// Extract into a context that already carries a span context: a valid header must give exactly what it
 	// gives on a fresh context (remote, header's flags and tracestate) whatever the parent holds - also when the
 	// parent has the SAME ids -, and an absent / invalid header must leave the parent's span context in place.
